@@ -1566,13 +1566,12 @@ func ruleLoaderGuard(c *Ctx, ls *loaderSSA) {
 						continue
 					}
 					for _, in2 := range b2.Instrs {
-						st, ok := in2.(*ssa.Store)
-						if !ok {
-							continue
-						}
-						if k, ok := st.Val.(*ssa.Const); ok && k.Value != nil {
-							if v, exact := constant.Int64Val(constant.ToInt(k.Value)); exact && v == ls.cycleK && typeHasSuffix(k.Type(), "include.ErrorKind") {
-								reports = true
+						// the cycle kind as an operand: stored into the error, or handed to a constructor of errors
+						for _, op := range in2.Operands(nil) {
+							if k, ok := (*op).(*ssa.Const); ok && k.Value != nil && k.Value.Kind() == constant.Int && typeHasSuffix(k.Type(), "include.ErrorKind") {
+								if v, exact := constant.Int64Val(k.Value); exact && v == ls.cycleK {
+									reports = true
+								}
 							}
 						}
 					}
